@@ -129,6 +129,29 @@ class RecPlugin(Plugin):
                     a[0] == "k" and b[0] == "k":
                 return ("k", None)
             return "?"
+        if isinstance(e, ast.Call) and isinstance(
+                e.func, ast.Attribute) and e.func.attr == "update" and \
+                isinstance(e.func.value, ast.Name) and isinstance(
+                    d.get(e.func.value.id), tuple) and \
+                d[e.func.value.id][:1] == ("dict",):
+            # kwargs.update(k=v, ...) / kwargs.update({...}) on a local
+            # dict whose entries are known
+            items = list(d[e.func.value.id][1])
+            known = True
+            for a in e.args:
+                av = self.eval(a, d)
+                if isinstance(av, tuple) and av[:1] == ("dict",):
+                    items += list(av[1])
+                else:
+                    known = False
+            for k in e.keywords:
+                if k.arg is None:
+                    known = False
+                else:
+                    items = [it for it in items if it[0] != k.arg] + [
+                        (k.arg, self.eval(k.value, d))]
+            d[e.func.value.id] = ("dict", tuple(items)) if known else "?"
+            return NONE
         if isinstance(e, ast.Call):
             fn = U(e.func)
             if fn.endswith("Duration") and all(
